@@ -142,7 +142,7 @@ Proof.
   - destruct (await_titan s) eqn:A.
     + destruct (FB eq_refl eq_refl) as [u [t [R [P [Et [Ts [U Sz]]]]]]].
       unfold ServerProto.data_received. cbn [buf line_rcvd await_titan titan set_buf]. rewrite L, A, Ts. cbn [negb].
-      destruct (N.leb (t_size t) _); [|apply AmwOK_none; reflexivity].
+      destruct (N.leb (t_size t) (N.of_nat (length (buf s ++ d)))); [|apply AmwOK_none; reflexivity].
       eapply AmwOK_weaken; [|apply amw_ptu]. cbn [titan set_content]. rewrite cancel_timer_eq. cbn [titan set_timer set_buf].
       intros x [t0 [H1 H2]] more. rewrite Ts in H1. inversion H1; subst.
       apply (expected_titan _ u (buf s ++ d ++ more)); auto.
@@ -247,19 +247,19 @@ Proof using Cmw Cip Cfp.
                            | EDone i (OMw true _) => existsb (Nat.eqb i) consulted
                            | _ => false end).
   apply andb_true_iff. split; [apply andb_true_iff; split|].
-  - rewrite Cmw. destruct has_mw eqn:MW; [|reflexivity].
+  - destruct (c_mw c) eqn:CM; [|reflexivity]. assert (MW : has_mw = true) by congruence.
     destruct (existsb is_invocation (snd (step s e))) eqn:E; [|reflexivity]. cbn [negb orb].
     apply existsb_count_pos in E.
     destruct (invoc_step s e MW E) as [i [t [k [-> [H1 H2]]]]].
     unfold adm'. rewrite (existsb_eqb_In i consulted); [apply orb_true_r|].
     apply (C (i, k)); assumption.
   - apply forallb_forall. intros act HIn. destruct act; try reflexivity.
-    destruct (amw_step s e D I F id url ip fp HIn) as [-> [-> [T [sl [-> H]]]]].
-    rewrite Cip, Cfp, eqb_refl, ostr_eqb_refl. cbn [andb].
+    destruct (amw_step s e D I F id url ip fp HIn) as [E1 [E2 [T [sl [E3 H]]]]].
+    rewrite E1, E2, E3 in *. rewrite Cip, Cfp, eqb_refl, ostr_eqb_refl. cbn [andb].
     rewrite (HU T). cbn [stream]. rewrite app_assoc, (H (stream r)). apply eqb_refl.
   - destruct (tr (fst (step s e))) eqn:T'.
     + (* still open: e is not ELost and tr s = true *)
-      assert (NL : e <> ELost) by (intro; subst; destruct (step_lost_tr ip6 handler has_mw has_upload peer_ip peer_fp s); congruence).
+      assert (NL : e <> ELost) by (intro; subst e; destruct (step_lost_tr ip6 handler has_mw has_upload peer_ip peer_fp s); congruence).
       pose proof (e_tr _ _ _ (Eff_step ip6 handler has_mw has_upload peer_ip peer_fp s e NL)) as TE.
       assert (T : tr s = true) by congruence.
       destruct e as [sl| | |]; try congruence.
@@ -295,7 +295,7 @@ End Gate.
 End Proto.
 
 Theorem gate_gen ip6 c evs :
-  Spec.C04.gate ip6 c (Spec.C04.expected_url ip6 (stream evs)) evs
+  Spec.C04.gate c (Spec.C04.expected_url ip6 (stream evs)) evs
     (run ip6 (fun _ => c_hres c) (c_mw c) (c_upload c) (c_ip c) (c_fp c) init evs) [] false = true.
 Proof.
   apply (gate_run ip6 (fun _ => c_hres c) (c_mw c) (c_upload c) (c_ip c) (c_fp c) c
